@@ -471,7 +471,7 @@ def atheris_campaign(seed, runs, seeded):
         findings = os.path.join(d, "findings.jsonl")
         env = dict(os.environ, PYTHONPATH=os.pathsep.join([core.ROOT, impl.REPO, deps]))
         cmd = [sys.executable, "-m", "vf.fuzz_c02", findings, corpus, "-runs=%d" % runs, "-seed=%d" % (seed + 1), "-max_len=256",
-               "-dict=" + dic, "-print_final_stats=1", "-verbosity=0"]
+               "-dict=" + dic, "-print_final_stats=1", "-verbosity=0", "-artifact_prefix=" + d + os.sep, "-report_slow_units=3600"]
         try:
             r = subprocess.run(cmd, cwd=core.ROOT, env=env, capture_output=True, text=True, timeout=3600, preexec_fn=core.unlimited_cpu)
         except subprocess.TimeoutExpired:
